@@ -25,7 +25,6 @@ CLAIMED = {
 # id -> reason (properties not claimed). PENDING entries are planned in DESIGN.md but the
 # rule set is not yet silent-and-sound on the unchanged tree, so they are not claimed.
 NOT_APPLICABLE = {
- "C17": "Agreement with the PNG/TIFF predictor specifications is numeric behaviour. Read for table clauses in round 3: the PNG filter-type switch (0..4), Paeth, Average and the row arithmetic (bytes per pixel, row size, +1 filter byte) are as RFC 2083 / ISO 32000 state them; two deviations were seen by reading only (TIFF differencing is applied bytewise whatever BitsPerComponent is; LZWDecode rejects every Predictor > 1). Demonstrating them needs an independent reference implementation (value-level) and the repairs are feature work, not minimal patches - recorded in DESIGN section 5, not claimed.",
  "C19": "Write/read graph isomorphism quantifies over document contents. The structural parts of writing (offset bookkeeping, free list, section order, lengths) are decided under C18; what is left is equality of object graphs, which no shape of the writer shows.",
  "C21": "'Every output validates' quantifies over operation parameters and document contents; validator acceptance is runtime behaviour. There is no write-side gate to check (operations do not re-validate before writing).",
  "C32": "Page operations vs a reference model over operation histories: content-level. The page-number range clause of selections is decided under C31; rotation/box/insert arithmetic on page dictionaries is value-level.",
